@@ -12,6 +12,8 @@ PROPS = {
     "C05": K("c05", bounds="no loop; all canonical addresses/pages, all usize counts"),
     "C06": K("c06", bounds="no loop; all u64 addresses x all 64 power-of-two alignments (k<=47 for VirtAddr)"),
     "C08": K("c08", bounds="all raw entries / aligned addresses / flag sets; 3-step setter programs; all 512 slots (unwind 514)"),
+    "C14": K("c14", bounds="one append from every valid table state, MAX in {1,2,3,8,9} (unwind MAX+2); all descriptors, all u16 selectors"),
+    "C15": K("c15", bounds="no loop; all 2^64 TSS addresses, all descriptor bit patterns"),
     "C07": K("c07", bounds="operators: all values (debug profile); ranges: one next() from every range + full iteration of ranges with <= 4 items (unwind 7)"),
     "C03": K("c03", bounds="no loop; all 2^64 (pairs: 2^128) input values; one operation per harness, closure by induction on the type invariant",
              assumptions=["inputs of composed operations satisfy the type invariant (canonical / < 2^52), which each operation is shown to preserve"]),
